@@ -209,7 +209,7 @@ def sym_replay(fn, msg):
     import re
     import glob
     import os
-    m = re.search(r"calling (\w+)\((.*)\)(?: \(which|$)", msg)
+    m = re.search(r"calling (\w+)\((.*?)\)(?: \(which returns|$)", msg)
     if not m:
         return "unparseable counterexample (treated as reproduced=False): " + msg if False else None
     # regenerate the sources and find the function
